@@ -2,6 +2,7 @@
 
 from __future__ import annotations
 
+from pathlib import Path
 from typing import TYPE_CHECKING
 from typing import Iterable
 from typing import Sequence
@@ -207,9 +208,12 @@ class IncludeNode(Node):
             if self.alias:
                 scope.append(self.alias)
             elif isinstance(self.name, Literal):
+                # The name bound at render time comes from the loaded template's
+                # name, which is the last part of the path it was loaded from.
                 scope.append(
                     Identifier(
-                        str(self.name.value).split(".", 1)[0], token=self.name.token
+                        Path(str(self.name.value)).name.split(".", 1)[0],
+                        token=self.name.token,
                     )
                 )
 
